@@ -58,6 +58,7 @@ def runToolOp (j : Json) : Json :=
       ("warnings", .arr (r.warnings.map Json.str).toArray),
       ("api_file", .str r.apiFileName), ("api_text", .str r.apiFileText),
       ("outside", .arr ((sortStrings r.gen.outside).map Json.str).toArray),
+      ("ops", .arr (r.gen.ops.map encOp).toArray),
       ("files", .arr (files.map fun (p, t) => Json.arr #[.str p, .str t]).toArray)]
 
 end StubGen.Driver
